@@ -597,13 +597,15 @@ impl<'p> ObjectData<'p> {
 
     pub(super) fn get_fields_order(&self) -> &[(InternedStr<'p>, ast::Visibility)] {
         enum FieldState {
-            Normal(ast::Visibility),
+            // The second item is the index of the last layer that cannot
+            // determine the visibility (because the field was removed from it).
+            Normal(ast::Visibility, usize),
             Removed(usize),
         }
 
         fn field_to_state(field: &ObjectField<'_>, layer_i: usize) -> FieldState {
             match field {
-                ObjectField::Normal(data) => FieldState::Normal(data.visibility),
+                ObjectField::Normal(data) => FieldState::Normal(data.visibility, 0),
                 ObjectField::Removed(depth) => FieldState::Removed(layer_i + *depth),
             }
         }
@@ -626,12 +628,20 @@ impl<'p> ObjectData<'p> {
                         std::collections::btree_map::Entry::Occupied(mut entry) => {
                             let entry = entry.get_mut();
                             match entry {
-                                FieldState::Normal(ast::Visibility::Default) => {
-                                    if let ObjectField::Normal(f) = f {
-                                        *entry = FieldState::Normal(f.visibility);
+                                FieldState::Normal(ast::Visibility::Default, skip_until) => {
+                                    if layer_i > *skip_until {
+                                        match f {
+                                            ObjectField::Normal(f) => {
+                                                *entry =
+                                                    FieldState::Normal(f.visibility, *skip_until);
+                                            }
+                                            ObjectField::Removed(depth) => {
+                                                *skip_until = layer_i + *depth;
+                                            }
+                                        }
                                     }
                                 }
-                                FieldState::Normal(_) => {}
+                                FieldState::Normal(_, _) => {}
                                 FieldState::Removed(removed_layer_i) => {
                                     if layer_i > *removed_layer_i {
                                         *entry = field_to_state(f, layer_i);
@@ -645,7 +655,7 @@ impl<'p> ObjectData<'p> {
             all_fields
                 .into_iter()
                 .filter_map(|(n, f)| match f {
-                    FieldState::Normal(vis) => Some((n.0, vis)),
+                    FieldState::Normal(vis, _) => Some((n.0, vis)),
                     FieldState::Removed(_) => None,
                 })
                 .collect()
